@@ -209,14 +209,13 @@ def parse_tla(s):
 
 
 def fail_tuples(out):
-    """All <<"FAIL", ...>> tuples TLC printed."""
+    """All <<"FAIL", ...>> tuples TLC printed (TLC may wrap long values over several lines)."""
     res = []
-    for line in out.splitlines():
-        if line.startswith('<<"FAIL"'):
-            try:
-                res.append(parse_tla(line))
-            except Exception as ex:  # keep the raw text rather than losing a failure
-                res.append(["FAIL", {"$set": ["?"]}, -1, -1, "?", "?", ["unparsed"], line[:300], str(ex)])
+    for m in re.finditer(r'^<<\s*"FAIL"', out, re.M):
+        try:
+            res.append(parse_tla(out[m.start():]))
+        except Exception as ex:  # keep the raw text rather than losing a failure
+            res.append(["FAIL", {"$set": ["?"]}, -1, -1, "?", "?", ["unparsed"], out[m.start():m.start() + 300], str(ex)])
     return res
 
 
